@@ -143,6 +143,9 @@ Definition comp_global (c : comp) : af := rename (cc_global c) (c_af c).
 Definition comp_local (c : comp) (S : list nat) : list nat :=
   filter (fun i => memb (cc_global c i) S) (seq 0 (length (c_ids c))).
 
+Lemma comp_eq_dec : forall c c' : comp, {c = c'} + {c <> c'}.
+Proof. repeat decide equality. Defined.
+
 Section Decomp.
   Variable F : af.
   Variable ccs : list comp.
@@ -258,6 +261,27 @@ Section Decomp.
         apply (Hloc c Hc). apply Hall. exact Hc.
   Qed.
 
+  (* the local trace of a gluing is the glued piece *)
+  Lemma comp_local_glue : forall (Sc : comp -> list nat) c,
+    (forall c', In c' ccs -> incl (Sc c') (seq 0 (length (c_ids c')))) -> In c ccs ->
+    seteq (comp_local c (flat_map (fun c' => map (cc_global c') (Sc c')) ccs)) (Sc c).
+  Proof.
+    intros Sc c Hincl Hc i. unfold comp_local. rewrite filter_In, memb_In, in_flat_map. split.
+    - intros [Hi [c' [Hc' Hx]]]. apply in_seq in Hi.
+      apply in_map_iff in Hx. destruct Hx as [j [E Hj]].
+      assert (Hjlt : j < length (c_ids c')).
+      { apply (Hincl c' Hc') in Hj. apply in_seq in Hj. lia. }
+      assert (c' = c).
+      { apply (comps_disjoint ccs c' c (cc_global c i) (d_nodup _ _ Hok) Hc' Hc).
+        - rewrite <- E. apply cc_global_in. exact Hjlt.
+        - apply cc_global_in. lia. }
+      subst c'. unfold cc_global in E.
+      apply (proj1 (NoDup_nth (c_ids c) 0) (comp_ids_NoDup c Hc)) in E; [|exact Hjlt | lia].
+      subst j. exact Hj.
+    - intros Hi. split; [apply (Hincl c Hc); exact Hi|]. exists c. split; [exact Hc|].
+      apply in_map. exact Hi.
+  Qed.
+
   (* gluing: one extension per component gives an extension of the whole framework *)
   Theorem ext_glue : forall s (Sc : comp -> list nat),
     (forall c, In c ccs ->
@@ -270,22 +294,9 @@ Section Decomp.
       apply (d_cover _ _ Hok). apply in_concat. exists (c_ids c).
       split; [apply in_map; exact Hc|]. apply cc_global_in.
       apply (proj2 (Hall c Hc)) in Hi. apply in_seq in Hi. lia.
-    - intros c Hc. destruct (Hall c Hc) as [Hext Hincl].
-      apply (ext_seteq s (c_af c) (Sc c)); [|exact Hext].
-      intros i. unfold comp_local. rewrite filter_In, memb_In, in_flat_map. split.
-      + intros Hi. split; [apply Hincl; exact Hi|]. exists c. split; [exact Hc|].
-        apply in_map. exact Hi.
-      + intros [Hi [c' [Hc' Hx]]]. apply in_seq in Hi.
-        apply in_map_iff in Hx. destruct Hx as [j [E Hj]].
-        assert (Hjlt : j < length (c_ids c')).
-        { apply (proj2 (Hall c' Hc')) in Hj. apply in_seq in Hj. lia. }
-        assert (c' = c).
-        { apply (comps_disjoint ccs c' c (cc_global c i) (d_nodup _ _ Hok) Hc' Hc).
-          - rewrite <- E. apply cc_global_in. exact Hjlt.
-          - apply cc_global_in. lia. }
-        subst c'. unfold cc_global in E.
-        apply (proj1 (NoDup_nth (c_ids c) 0) (comp_ids_NoDup c Hc)) in E; [|exact Hjlt | lia].
-        subst j. exact Hj.
+    - intros c Hc. destruct (Hall c Hc) as [Hext _].
+      apply (ext_seteq s (c_af c) (Sc c)); [|exact Hext]. apply seteq_sym.
+      apply comp_local_glue; [|exact Hc]. intros c' Hc'. exact (proj2 (Hall c' Hc')).
   Qed.
 
   (* projection: every extension of the framework restricts to an extension of each component *)
@@ -307,6 +318,80 @@ Section Decomp.
       destruct Hl as [c [E Hc]]. subst l. exists c. split; [exact Hc|].
       apply (comp_local_global c S x). apply in_restr. split; assumption.
     - intros [c [Hc Hx]]. apply (comp_local_global c S x) in Hx. apply in_restr in Hx. tauto.
+  Qed.
+
+  Lemma comp_ext_incl : forall s c S, In c ccs -> ext s (c_af c) S ->
+    incl S (seq 0 (length (c_ids c))).
+  Proof.
+    intros s c S Hc HS. rewrite <- (proj1 (d_compact _ _ Hok c Hc)). exact (ext_incl s _ S HS).
+  Qed.
+
+  (* a choice of one extension per component, with a prescribed one on [c] *)
+  Lemma glue_choice : forall s c Sc0,
+    (forall c', In c' ccs -> exists S, ext s (c_af c') S) ->
+    ext s (c_af c) Sc0 ->
+    exists Sc : comp -> list nat,
+      Sc c = Sc0 /\ forall c', In c' ccs -> ext s (c_af c') (Sc c').
+  Proof.
+    intros s c Sc0 Hex H0.
+    exists (fun c' => if comp_eq_dec c' c then Sc0 else hd [] (all_exts s (c_af c'))).
+    split.
+    - destruct (comp_eq_dec c c) as [_|Hn]; [reflexivity | exfalso; apply Hn; reflexivity].
+    - intros c' Hc'. destruct (comp_eq_dec c' c) as [E|_]; [subst c'; exact H0|].
+      destruct (Hex c' Hc') as [S HS].
+      destruct (all_exts_complete s (c_af c') S HS) as [S' [HS' _]].
+      apply all_exts_sound. destruct (all_exts s (c_af c')) as [|T r]; [destruct HS'|].
+      left. reflexivity.
+  Qed.
+
+  (* queries about arguments of one component are answered on that component, provided every
+     component has at least one extension (always true except for ST) *)
+  Theorem cred_comp : forall s c A,
+    In c ccs -> incl A (seq 0 (length (c_ids c))) ->
+    (forall c', In c' ccs -> exists S, ext s (c_af c') S) ->
+    (cred s F (map (cc_global c) A) <-> cred s (c_af c) A).
+  Proof.
+    intros s c A Hc HA Hex. unfold cred. split.
+    - intros [S [HS [x [HxA HxS]]]]. exists (comp_local c S).
+      split; [exact (ext_project s S c HS Hc)|].
+      apply in_map_iff in HxA. destruct HxA as [a [E Ha]]. subst x. exists a.
+      split; [exact Ha|]. unfold comp_local. apply filter_In.
+      split; [apply HA; exact Ha | apply memb_In; exact HxS].
+    - intros [Sc0 [H0 [a [HaA HaS]]]].
+      destruct (glue_choice s c Sc0 Hex H0) as [Sc [E Hall]].
+      exists (flat_map (fun c' => map (cc_global c') (Sc c')) ccs). split.
+      + apply ext_glue. intros c' Hc'. split; [apply Hall; exact Hc'|].
+        apply (comp_ext_incl s c' _ Hc'). apply Hall. exact Hc'.
+      + exists (cc_global c a). split; [apply in_map; exact HaA|].
+        apply in_flat_map. exists c. split; [exact Hc|]. apply in_map. rewrite E. exact HaS.
+  Qed.
+
+  Theorem skep_comp : forall s c A,
+    In c ccs -> incl A (seq 0 (length (c_ids c))) ->
+    (forall c', In c' ccs -> exists S, ext s (c_af c') S) ->
+    (skep s F (map (cc_global c) A) <-> skep s (c_af c) A).
+  Proof.
+    intros s c A Hc HA Hex. unfold skep. split.
+    - intros H Sc0 H0. destruct (glue_choice s c Sc0 Hex H0) as [Sc [E Hall]].
+      assert (Hincl : forall c', In c' ccs -> incl (Sc c') (seq 0 (length (c_ids c')))).
+      { intros c' Hc'. apply (comp_ext_incl s c' _ Hc'). apply Hall. exact Hc'. }
+      destruct (H (flat_map (fun c' => map (cc_global c') (Sc c')) ccs)) as [x [HxA HxS]].
+      { apply ext_glue. intros c' Hc'. split; [apply Hall; exact Hc' | apply Hincl; exact Hc']. }
+      apply in_map_iff in HxA. destruct HxA as [a [Ex Ha]]. subst x. exists a.
+      split; [exact Ha|]. rewrite <- E. apply (comp_local_glue Sc c Hincl Hc a).
+      unfold comp_local. apply filter_In. split; [apply HA; exact Ha | apply memb_In; exact HxS].
+    - intros H S HS. destruct (H _ (ext_project s S c HS Hc)) as [a [HaA HaS]].
+      exists (cc_global c a). split; [apply in_map; exact HaA|].
+      apply filter_In in HaS. apply memb_In. tauto.
+  Qed.
+
+  (* the ST corner: one component without stable extension and the framework has none *)
+  Theorem st_comp_corner : forall c A,
+    In c ccs -> (forall S, ~ st (c_af c) S) -> skep ST F A /\ ~ cred ST F A.
+  Proof.
+    intros c A Hc Hno. split.
+    - intros S HS. exfalso. exact (Hno _ (ext_project ST S c HS Hc)).
+    - intros [S [HS _]]. exact (Hno _ (ext_project ST S c HS Hc)).
   Qed.
 End Decomp.
 
@@ -339,3 +424,6 @@ Print Assumptions ext_decomp.
 Print Assumptions ext_glue.
 Print Assumptions ext_project.
 Print Assumptions ext_glue_project.
+Print Assumptions cred_comp.
+Print Assumptions skep_comp.
+Print Assumptions st_comp_corner.
